@@ -153,6 +153,106 @@ theorem graphFinderWith_complete (inv : Nat → Adj → Option Adj) (m0 : XZ) (h
   · rw [hn2]; exact hM
   · rw [hn2]; exact finalZ_symm m0.n m2.x m2.z M hcomm2 hM
 
+/-- the matrix handed to the inverse computation (the transposed X part after row reduction and Hadamards) has trivial kernel -/
+theorem hadamard_x_inj (m0 : XZ) (hn : 0 < m0.n) (hc : Comm m0) (hi : Indep m0) :
+    Inj m0.n (transpose
+      ((m0.norm.rowReduction.1.hadamardTransform (positionFinder m0.n m0.norm.rowReduction.1.x)).norm).x) := by
+  have hred := bequiv_rowReduction m0.norm hn
+  have hech := rowReduction_ech m0.norm hn
+  have hind1 := indep_rowReduction m0.norm hn (indep_norm m0 hi)
+  generalize m0.norm.rowReduction.1 = m1 at hred hech hind1 ⊢
+  have hn1 : m1.n = m0.n := hred.2
+  have hcomm1 : Comm m1 := comm_of_bequiv hred.1 (comm_norm m0 hc)
+  obtain ⟨r, piv, he⟩ := hech
+  generalize hpos : positionFinder m0.n m1.x = pos
+  have hpm : ∀ q, q ∈ pos ↔ q < m1.n ∧ ∀ i, i < r → piv i ≠ q := by
+    rw [← hpos, ← hn1]; exact positionFinder_ech m1 r piv he
+  have hrows := hadamard_rows_independent m1 r piv he pos hpm hcomm1 hind1
+  intro v hv j hj
+  apply hrows v _ j (by omega)
+  intro c hcn
+  rw [hn1] at hcn ⊢
+  rw [← hv c hcn]
+  apply parityTo_congr
+  intro i hi
+  show (v i && hx pos (m1.x i) (m1.z i) c) = ((m1.hadamardTransform pos).norm.x i c && v i)
+  rw [norm_x _ i c (by show i < m1.n; omega) (by show c < m1.n; omega), Bool.and_comm]
+  rfl
+
+theorem BMat.norm_congr (a b : BMat) (hr : a.r = b.r) (hc : a.c = b.c)
+    (h : ∀ i j, i < a.r → j < a.c → a.f i j = b.f i j) : a.norm = b.norm := by
+  obtain ⟨ar, ac, af⟩ := a
+  obtain ⟨br, bc, bf⟩ := b
+  simp only at hr hc h
+  subst hr hc
+  unfold BMat.norm
+  simp only
+  have : (fun i : Fin ar => Array.ofFn (n := ac) fun j => af i.val j.val) =
+      (fun i : Fin ar => Array.ofFn (n := ac) fun j => bf i.val j.val) := by
+    funext i
+    congr 1
+    funext j
+    exact h i.val j.val i.isLt j.isLt
+  rw [this]
+
+theorem all_range_congr (n : Nat) (f g : Nat → Bool) (h : ∀ i, i < n → f i = g i) :
+    (List.range n).all f = (List.range n).all g := by
+  apply Bool.eq_iff_iff.mpr
+  simp only [List.all_eq_true, List.mem_range]
+  exact ⟨fun hf i hi => (h i hi) ▸ hf i hi, fun hg i hi => (h i hi).symm ▸ hg i hi⟩
+
+/-- the tail of `_graph_finder` reads the inverse candidate only below `n` -/
+theorem graphFinderTail_congr (m2 : XZ) (xinv xinv' : Adj) (hpos : List Nat) (rank : Int)
+    (h : ∀ i j, i < m2.n → j < m2.n → xinv i j = xinv' i j) :
+    graphFinderTail m2 xinv hpos rank = graphFinderTail m2 xinv' hpos rank := by
+  have hfz : (BMat.ofAdj m2.n (matMul m2.n (transpose m2.z) xinv)).norm =
+      (BMat.ofAdj m2.n (matMul m2.n (transpose m2.z) xinv')).norm := by
+    refine BMat.norm_congr (BMat.ofAdj m2.n (matMul m2.n (transpose m2.z) xinv))
+      (BMat.ofAdj m2.n (matMul m2.n (transpose m2.z) xinv')) rfl rfl ?_
+    intro i j _ hj
+    show matMul m2.n (transpose m2.z) xinv i j = matMul m2.n (transpose m2.z) xinv' i j
+    simp only [matMul]
+    apply parityTo_congr
+    intro k hk
+    rw [h k j hk hj]
+  have hchk : ((List.range m2.n).all fun i => (List.range m2.n).all fun j =>
+      matMul m2.n xinv (transpose m2.x) i j == decide (i = j)) =
+      ((List.range m2.n).all fun i => (List.range m2.n).all fun j =>
+      matMul m2.n xinv' (transpose m2.x) i j == decide (i = j)) := by
+    apply all_range_congr; intro i hi
+    apply all_range_congr; intro j _
+    have : matMul m2.n xinv (transpose m2.x) i j = matMul m2.n xinv' (transpose m2.x) i j := by
+      simp only [matMul]
+      apply parityTo_congr
+      intro k hk
+      rw [h i k hi hk]
+    rw [this]
+  unfold graphFinderTail
+  simp only
+  rw [hfz, hchk]
+
+/-- two inverse computations that agree (below `n`) on matrices with trivial kernel give the same `_graph_finder` on stabilizer
+    states -/
+theorem graphFinderWith_congr (inv inv' : Nat → Adj → Option Adj) (m0 : XZ) (hn : 0 < m0.n) (hc : Comm m0) (hi : Indep m0)
+    (h : ∀ A, Inj m0.n A → ∃ M M', inv m0.n A = some M ∧ inv' m0.n A = some M' ∧
+      ∀ i j, i < m0.n → j < m0.n → M i j = M' i j) :
+    graphFinderWith inv m0 = graphFinderWith inv' m0 := by
+  have hinj := hadamard_x_inj m0 hn hc hi
+  have hred := bequiv_rowReduction m0.norm hn
+  unfold graphFinderWith
+  rw [if_neg (by omega), if_neg (by omega)]
+  generalize m0.norm.rowReduction = rr at hinj hred
+  obtain ⟨m1, rank0⟩ := rr
+  simp only at hinj hred ⊢
+  obtain ⟨M, M', e, e', hM⟩ := h _ hinj
+  rw [e, e']
+  simp only
+  apply graphFinderTail_congr
+  intro i j hi hj
+  have hn2 : ((m1.hadamardTransform (positionFinder m0.n m1.x)).norm).n = m0.n := hred.2
+  rw [hn2] at hi hj
+  exact hM i j hi hj
+
 theorem graphFinder_complete (m0 : XZ) (hn : 0 < m0.n) (hc : Comm m0) (hi : Indep m0) : ∃ g, graphFinder m0 = .ok g :=
   graphFinderWith_complete gf2InvF m0 hn (gf2InvF_ok m0.n) hc hi
 
